@@ -206,7 +206,7 @@ class C11(Monitor):
                     v.append(dict(kind="gcode-altered-while-inactive", idx=i, cmd=st[1], detail="hook returned %r, sent %r" % (res[1], res[2]), mechanism=None))
                 if st[0] == "at" and (res[2] or res[1] is not None):
                     v.append(dict(kind="at-command-acted-while-inactive", idx=i, cmd=repr(st), detail="returned %r sent %r" % (res[1], res[2]), mechanism=None))
-                if st[0] == "script" and res[1] is not None:
+                if st[0] == "script" and res[1] is not None and any(bool(x) for x in res[1]):
                     v.append(dict(kind="script-hook-contributed-while-inactive", idx=i, cmd=repr(st), detail=repr(res[1]), mechanism=None))
                 if tracking(p) != trk:
                     v.append(dict(kind="tracked-while-inactive", idx=i, cmd=repr(st), detail="tracking state changed outside a print", mechanism=None))
